@@ -214,7 +214,12 @@ def rule_edge(ctx):
             for x in conds:
                 if x.get("op") in ("<", "<=", ">", ">="):
                     l_, rr_ = r_.e(x["l"]), r_.e(x["r"])
-                    plain = [s_ for s_ in (l_, rr_) if re.search(r"(?<![a-z_])distance\(", s_) and "rdistance(" not in s_]
+                    plain = [s_ for s_ in (l_, rr_) if (re.search(r"(?<![a-z_])distance\(", s_) and "rdistance(" not in s_) or "rdist_to_dist(" in s_]
+                    if not plain:
+                        # `let rdist = ..rdistance(..); self.1.rdist_to_dist(rdist) < range` inside the filter closure
+                        for side in (x["l"], x["r"]):
+                            if any(z.get("k") == "MethodCall" and z["name"] == "rdist_to_dist" for z in walk(side)):
+                                plain = [r_.e(side)]
                     if plain and ("range" in l_ or "range" in rr_):
                         res.instance("LinearSearch : unit of the admission test")
                         res.violate("LinearSearch : admission-in-plain-distance", "the linear scan admits a point by `%s`, a comparison of plain distances, while the tree indices compare reduced distances with the reduced radius: the two predicates round differently, so the kinds disagree on points exactly on the radius" % r_.e(x)[:60], fn_loc(fn, x.get("ln")))
@@ -256,6 +261,18 @@ def rule_edge(ctx):
                 if clo.get("k") == "Closure":
                     conds += [x for x in walk(clo["body"]) if x.get("k") == "Binary"]
         post, node = admit_relation(c, conds, lambda s: "dist" in s, lambda s: "range" in s)
+        # the post-filter compares the reported reduced distance with the reduced radius as they are: a slack added to one
+        # side (`dist + epsilon < range`) is an absolute quantity on a squared scale - below radius^2 = epsilon every point,
+        # the query point included, is cut off, and the k-d tree alone answers differently from the other kinds
+        for x in conds:
+            if x.get("op") in ("<", "<=", ">", ">="):
+                for side in (x["l"], x["r"]):
+                    s0 = peel_refs(side)
+                    while s0.get("k") in ("Paren", "DropTemps") or (s0.get("k") == "Unary" and s0["op"] == "*"):
+                        s0 = peel_refs(s0["e"])
+                    if s0.get("k") == "Binary" and s0["op"] in ("+", "-"):
+                        res.instance("KdTree : post-filter operands")
+                        res.violate("KdTree : admission-with-slack", "the k-d tree's post-filter admits by `%s`: an additive slack on the reduced distance / radius is absolute, so for radii near its size the sphere is cut off altogether (or widened), and this kind alone disagrees with the others" % Render(c).e(x)[:60], fn_loc(fn, x.get("ln")))
         eff = kd_dep
         if post == "<" or kd_dep == "<":
             eff = "<" if kd_dep is not None else None
@@ -820,6 +837,41 @@ def rule_convpair(ctx):
     return res.finish(4)
 
 
+def rule_signedpower(ctx):
+    """|a - b|^p: the absolute value comes before the power.  `(a - b).powi(p)` of the signed difference is the same for even
+    p and negative for odd p and a < b - a "fast path for whole-number exponents" that drops the abs() makes L3, L5 ..
+    distances NaN or wrong while every test (p = 2, p fractional) passes."""
+    res = RuleResult("R-C07-signedpower", "in the Distance impls a power of a coordinate difference is taken of its absolute value (or with a literal even exponent)")
+    F = ctx.facts()
+    n = 0
+    for fn in nn_fns(F):
+        d = fn["d"]
+        if (d.get("trait") or "").split("<")[0].split("::")[-1] != "Distance" or d["name"] not in ("distance", "rdistance"):
+            continue
+        c = fn["crate"]
+        r = Render(c)
+        key = fn_key(fn)
+        for y in walk(fn["body"]):
+            if y.get("k") != "MethodCall" or y["name"] not in ("powi", "powf", "pow"):
+                continue
+            base = peel_refs(y["recv"])
+            while base.get("k") in ("Paren", "DropTemps"):
+                base = peel_refs(base["e"])
+            if base.get("k") != "Binary" or base["op"] != "-":
+                continue
+            n += 1
+            res.instance("%s : `%s`" % (key, r.e(y)[:40]))
+            ex = peel_refs(y["args"][0]) if y["args"] else {}
+            even_lit = ex.get("k") == "Lit" and str(ex.get("v")).rstrip(".0f3264_i") in ("2", "4", "6")
+            if even_lit:
+                res.ok()
+            else:
+                res.violate("%s : power-of-signed-difference" % key, "`%s` raises the signed coordinate difference to a power that is not a literal even number: for odd exponents negative differences enter the sum negatively - the distance is wrong or NaN" % r.e(y)[:50], fn_loc(fn, y.get("ln")))
+    res.instance("%d powers of raw coordinate differences in the Distance impls" % n)
+    res.ok()
+    return res.finish(1)
+
+
 def rule_capacity(ctx):
     """'k larger than the number of points returns all points': the requested count is any usize.  Memory reserved up
     front for the answer is sized by what can be returned (the number of points), never by the requested count itself -
@@ -863,4 +915,4 @@ def rule_capacity(ctx):
 def rules(tier):
     from . import precision
     return [rule_unit, rule_sib, rule_edge, rule_degree, rule_memorder, rule_cover, rule_direct,
-            precision.make_rule("R-C07-precision", lambda f: f["d"]["krate"] == "linfa_nn", 30, "linfa-nn"), rule_noint, rule_dispatch, rule_capacity, rule_convpair]
+            precision.make_rule("R-C07-precision", lambda f: f["d"]["krate"] == "linfa_nn", 30, "linfa-nn"), rule_noint, rule_dispatch, rule_capacity, rule_convpair, rule_signedpower]
